@@ -226,7 +226,15 @@ pub enum Case {
 fn options_for(n: usize, rows: usize) -> Vec<Opt> {
     let none = (Bound::Included(1), Bound::Excluded(0));
     let axes = [none, (Bound::Included(1), Bound::Excluded(3)), (Bound::Included(1), Bound::Unbounded), (Bound::Included(0), Bound::Unbounded)];
-    let rws: Vec<(Bound<i32>, Bound<i32>)> = if rows > 1 { axes.to_vec() } else { vec![none] };
+    // (row windows may start below zero: rows 0.. are hidden all the same and the ellipsis stands for them)
+    let rws: Vec<(Bound<i32>, Bound<i32>)> = if rows > 1 {
+        let mut r = axes.to_vec();
+        r.push((Bound::Included(-1), Bound::Excluded(2)));
+        r.push((Bound::Excluded(-2), Bound::Unbounded));
+        r
+    } else {
+        vec![none]
+    };
     let mut v = vec![];
     let mut sorts = vec![0, 1, n, n + 1];
     sorts.dedup();
@@ -256,11 +264,25 @@ fn check_matrix(mat: &[Vec<f64>], bias: &[f64]) -> CaseOut {
     let mut out = CaseOut::default();
     let rows = mat.len();
     let n = mat[0].len();
-    let mut a = Array2::<f64>::zeros((rows, n));
+    // storage chosen by the entries: standard, column-major, or mirrored with inverted axes (negative strides)
+    let h = mat.iter().flatten().chain(bias.iter()).enumerate().map(|(k, v)| (k as i64 + 1) * ((v.abs() * 8.0) as i64 % 7)).sum::<i64>().rem_euclid(3);
+    let mut a = {
+        use ndarray::ShapeBuilder;
+        if h == 1 && rows >= 2 && n >= 2 { Array2::<f64>::zeros((rows, n).f()) } else { Array2::<f64>::zeros((rows, n)) }
+    };
+    let mirrored = h == 2 && rows * n >= 2;
     for i in 0..rows {
         for j in 0..n {
+            if mirrored {
+                a[[rows - 1 - i, n - 1 - j]] = mat[i][j];
+                continue;
+            }
             a[[i, j]] = mat[i][j];
         }
+    }
+    if mirrored {
+        a.invert_axis(ndarray::Axis(0));
+        a.invert_axis(ndarray::Axis(1));
     }
     // constructed through the public fields: from_mats refuses subnormal values in debug builds only
     let f = AffFunc::from_mats(a.clone(), Array1::from(bias.to_vec()));
